@@ -56,6 +56,9 @@ ASSUMPTIONS = [
     "empty store and the semantic part of c07_check decides (statuses, the set of user assignments observed to extend "
     "against the set the theorem predicts; C20_memory_independent); every SAT probe over <= 10 variables observes "
     "that projection (PySAT, a solver of the harness' own) and it is part of the digest",
+    "YAML-read allocations taken through initial_allocation / refine / re-read (kind allocflow) and netlists changed "
+    "in place after loading are compared by digest only; the tolerance candidate of an allocflow operation is that of "
+    "its Allocation (constructed before its netlist)",
     "pattern families (same index pattern, other line coordinates) on grids of more than 20 cells / hard modules "
     "of more than 8 rectangles are compared by digest only (stream exact-large)",
 ]
@@ -769,6 +772,196 @@ def copy_of(d):
 
 
 # --------------------------------------------------------------------------
+# designs READ FROM YAML and then CHANGED IN PLACE by the library's own operations (initial_allocation tags the cells
+# covered by fixed modules, refine / griddify hand Rectangle objects on, create_squares / create_stogs / recenter
+# rewrite the rectangles of a netlist) before the probe loads a textually / cell-wise identical design
+# --------------------------------------------------------------------------
+def num_txt(x):
+    x = F(x)
+    return str(int(x)) if x.denominator == 1 else repr(float(x))
+
+
+def num_val(x):
+    x = F(x)
+    return int(x) if x.denominator == 1 else float(x)
+
+
+def allocflow_design(cells, mods, steps, form, note):
+    """cells: [[cx, cy, w, h] (Fractions), [[module, ratio]], depth]; mods: [name, 'fixed', [rects]] | [name, 'soft',
+    area, [x, y]]; form: 'text' | 'tree' (the same numbers, integers written as integers)"""
+    if form == "text":
+        lines = []
+        for r, al, dp in cells:
+            body = "{" + ", ".join(f"{m}: {q!r}" for m, q in al) + "}"
+            lines.append(f"- [[{', '.join(num_txt(v) for v in r)}], {body}" + (f", {dp}]" if dp else "]"))
+        alloc = "\n".join(lines) + "\n"
+    else:
+        alloc = [[[num_val(v) for v in r], {m: q for m, q in al}] + ([dp] if dp else []) for r, al, dp in cells]
+    ml = []
+    for m in mods:
+        if m[1] == "fixed":
+            rs = ", ".join("[" + ", ".join(num_txt(v) for v in r) + "]" for r in m[2])
+            ml.append(f"  {m[0]}: {{fixed: true, rectangles: [{rs}]}}")
+        else:
+            ml.append(f"  {m[0]}: {{area: {num_txt(m[2])}, center: [{num_txt(m[3][0])}, {num_txt(m[3][1])}]}}")
+    names = [m[0] for m in mods]
+    nets = f"  - [{', '.join(names)}]" if len(names) >= 2 else ""
+    netlist = "Modules:\n" + "\n".join(ml) + "\nNets:" + ("\n" + nets if nets else " []") + "\n"
+    x0 = min(r[0] - r[2] / 2 for r, _, _ in cells)
+    x1 = max(r[0] + r[2] / 2 for r, _, _ in cells)
+    y0 = min(r[1] - r[3] / 2 for r, _, _ in cells)
+    y1 = max(r[1] + r[3] / 2 for r, _, _ in cells)
+    bb = [x1 - x0, y1 - y0]
+    ds = [v for r, _, _ in cells for v in r[2:4]] + bb
+    for m in mods:
+        ds += [v for r in m[2] for v in r[2:4]] if m[1] == "fixed" else [F(math.sqrt(float(m[2])))]
+    return {"op": {"k": "allocflow", "alloc": alloc, "netlist": netlist, "steps": steps}, "kind": "allocflow",
+            "stream": "flow", "variant": None, "dims": [min(ds), max(ds)], "note": "rel:" + note,
+            "cand": [["A", bb[0], bb[1]]], "fixed": None, "needs_installer": False}
+
+
+def allocflow_family(rng, P):
+    nx, ny = rng.choice([(2, 1), (2, 2), (3, 1), (3, 2), (4, 2), (3, 3), (4, 1)])
+    w, h = F(rng.choice([1, 2, 2, 3, 4])) * P, F(rng.choice([1, 2, 2, 3])) * P
+    grid = [[(i + F(1, 2)) * w, (j + F(1, 2)) * h, w, h] for j in range(ny) for i in range(nx)]
+    names = ["M1", "M2", "M3"][:rng.choice([1, 2, 2, 3])]
+    ratios = [0.125, 0.25, 0.4, 0.4, 0.5, 0.9, 1.0]
+
+    def contents():
+        out = []
+        for _ in grid:
+            ms = [m for m in names if rng.random() < 0.6]
+            out.append([[m, rng.choice(ratios)] for m in ms])
+        return out
+    base = contents()
+    if not any(base):
+        base[0] = [[names[0], 0.4]]
+    cells = [[r, al, 0] for r, al in zip(grid, base)]
+    empty = [[r, [], 0] for r in grid]
+    A = w * h
+
+    def soft(k):
+        return [[m, "soft", A * rng.choice([F(1, 2), F(1), F(3, 2), F(2)]),
+                 [rng.randrange(1, 2 * nx) * w / 2, rng.randrange(1, 2 * ny) * h / 2]] for m in names[:k]]
+    n0 = soft(len(names))
+    thr = rng.choice([0.25, 0.5, 0.5, 0.9375])
+    lead_steps = [["mbr", thr], ["refine", thr, rng.choice([1, 1, 2])], ["initial", False, rng.random() < 0.5]]
+    if rng.random() < 0.5:
+        lead_steps.append(rng.choice([["griddify"], ["uniform"], ["mbr", thr], ["reread"]]))
+    fam = [allocflow_design(cells, n0, lead_steps, "text", "self")]
+    covered = rng.sample(range(len(grid)), min(len(grid), rng.choice([1, 2, 3])))
+    for i in covered:
+        fx = [["FX", "fixed", [grid[i]]]]
+        if len(grid) > 2 and rng.random() < 0.3:
+            j = (i + 1) % len(grid)
+            fx = [["FX", "fixed", [grid[i], grid[j]]]] if rng.random() < 0.5 else fx + [["FY", "fixed", [grid[j]]]]
+        nl = fx + soft(rng.randrange(0, len(names) + 1))
+        go = rng.random() < 0.5
+        # the history design: the same cells (empty, or with the probe's contents) with a fixed module on cell i
+        fam.append(allocflow_design(empty, nl, [["initial", False, go], ["mbr", thr], ["refine", thr, 1]], "text",
+                                    "fixed-cover"))
+        fam.append(allocflow_design(cells, nl, [["initial", rng.random() < 0.3, go], ["refine", thr, 1]],
+                                    rng.choice(["text", "tree"]), "fixed-cover"))
+    fam.append(allocflow_design(cells, n0, lead_steps, "tree", "form"))
+    fam.append(allocflow_design(cells, n0, [["refine", thr, 1], ["reread"], ["initial", False, True], ["griddify"],
+                                            ["uniform"], ["reread"], ["mbr", thr]], "text", "loop"))
+    c2 = [[r, al, 0] for r, al in zip(grid, contents())]
+    fam.append(allocflow_design(c2, n0, lead_steps, "text", "onefield"))
+    if nx > 2:
+        keep = [k for k in range(len(grid)) if k % nx != nx - 1]
+        fam.append(allocflow_design([cells[k] for k in keep], n0, lead_steps, "text", "drop"))
+    fam.append(allocflow_design(cells[::-1], n0, [["initial", False, False]] + lead_steps[:2], "text", "reorder"))
+    return fam
+
+
+NETFLOW = ["squares", "stogs", "recenter", "fixall"]
+
+
+def netflow_family(rng, P):
+    """one netlist text (soft modules with centres, a hard module made of a trunk and a branch, a fixed module) loaded
+    and then changed in place by create_squares / create_stogs / recenter_rectangles / fixed flags; the probe loads
+    the same text"""
+    u = F(rng.choice([1, 2, 4])) * P
+    tr = [4 * u, 3 * u, 4 * u, 2 * u]
+    br = [4 * u, 5 * u, 2 * u, 2 * u] if rng.random() < 0.7 else [7 * u, 3 * u, 2 * u, 2 * u]
+    fx = [10 * u, 2 * u, 2 * u, 4 * u]
+
+    def rtxt(r):
+        return "[" + ", ".join(num_txt(v) for v in r) + "]"
+    lines = ["Modules:",
+             f"  H1: {{hard: true, rectangles: [{rtxt(tr)}, {rtxt(br)}]}}",
+             f"  S1: {{area: {num_txt(4 * u * u)}, center: [{num_txt(2 * u)}, {num_txt(8 * u)}]}}",
+             f"  S2: {{area: {num_txt(9 * u * u)}, center: [{num_txt(8 * u)}, {num_txt(8 * u)}]}}",
+             f"  F1: {{fixed: true, rectangles: [{rtxt(fx)}]}}",
+             "Nets:", "  - [H1, S1, S2]", "  - [S2, F1, 2]"]
+    txt = "\n".join(lines) + "\n"
+    dims = [2 * u, 4 * u]
+
+    def mk(mut, note):
+        return {"op": {"k": "netlist", "text": txt, "mutate": mut}, "kind": "netlist", "stream": "decimal",
+                "variant": None, "dims": dims, "note": "rel:" + note, "cand": None, "fixed": None,
+                "needs_installer": True}
+    fam = [mk([], "self")]
+    for _ in range(4):
+        mut = [rng.choice(NETFLOW) for _ in range(rng.choice([1, 2, 3]))]
+        fam.append(mk(mut, "mutate"))
+    fam.append(mk(list(NETFLOW), "mutate"))
+    return fam
+
+
+def gen_flow_group(rng, kind):
+    base = pow2(rng.choice([-3, -2, 0, 0, 0, 1, 3]))
+    fam = [strip(m) for m in (allocflow_family(rng, base) if kind == "allocflow" else netflow_family(rng, base))]
+    lead = fam[0]
+    probes = [lead] + rng.sample(fam[1:], min(2, len(fam) - 1))
+    chosen = [copy_of(m) for m in fam[1:]] + [copy_of(lead) for _ in range(rng.choice([0, 1]))]
+    rng.shuffle(chosen)
+    if kind == "allocflow" and rng.random() < 0.5:
+        # the netlist of one of the designs loaded (and changed in place) on its own
+        m = rng.choice(fam)
+        chosen.insert(rng.randrange(len(chosen) + 1),
+                      strip({"op": {"k": "netlist", "text": m["op"]["netlist"], "mutate": ["squares", "stogs"]},
+                             "kind": "netlist", "stream": "decimal", "variant": None, "dims": m["dims"],
+                             "note": "rel:mutate", "cand": None, "needs_installer": True}))
+    for _ in range(rng.choice([0, 0, 1, 2])):
+        h = gen_history_op(rng, lead, base)
+        if h is not None:
+            chosen.insert(rng.randrange(len(chosen) + 1), strip(h))
+    cases = []
+    for p in probes:
+        hs = fix_installer(rng, [h for h in chosen if admissible(p, h)], p)
+        if hs and installer_rule_ok(hs):
+            cases.append({"history": hs, "probe": dict(copy_of(p), needs_installer=False)})
+    return cases
+
+
+def with_sat_api(case):
+    """the SAT operations of a history also call the public methods of SATManager that post nothing (the deprecated
+    prioritize with negated literals, setflipped, isflipped, newaux, printclauses, tocnf, solve, value, evalexpr,
+    newvar with another prefix) on their variables - whose names the probed manager registers as well.  Derived
+    from the content of the operation (equal histories stay equal; the objects are not modified: a near-duplicate
+    in a history may be the very object that is probed)"""
+    if case.get("threshold") or case.get("tail"):
+        return case
+    import random
+    import zlib
+    hs = []
+    for h in case["history"]:
+        op = h["op"]
+        if op.get("k") == "sat" and not any(q["k"] == "api" for q in op["posts"]):
+            r = random.Random(zlib.crc32(json.dumps(fr.tojson(op["posts"]), sort_keys=True).encode()))
+            names = [q["v"] for q in op["posts"] if q["k"] == "newvar"]
+            if names and r.random() < 0.7:
+                posts = list(op["posts"])
+                first = max(i for i, q in enumerate(posts) if q["k"] == "newvar") + 1
+                for _ in range(r.choice([1, 1, 2, 3])):
+                    posts.insert(r.randint(first, len(posts)), c07.gen_api_call(r, names))
+                h = dict(h, op=dict(op, posts=posts))
+        hs.append(h)
+    return dict(case, history=hs)
+
+
+# --------------------------------------------------------------------------
 # the SIZE of the process-wide diagram store: a history that leaves 10^4 .. 2^21 nodes behind
 # --------------------------------------------------------------------------
 def gen_sat_ext_probe(rng):
@@ -1283,7 +1476,7 @@ def robust_expr(case):
 # --------------------------------------------------------------------------
 # direct oracle
 # --------------------------------------------------------------------------
-EPS_KINDS = ("stog", "alloc", "die", "netlist", "legal")
+EPS_KINDS = ("stog", "alloc", "allocflow", "die", "netlist", "legal")
 
 
 def oracle(case, obs):
@@ -1439,6 +1632,18 @@ def run(ctx, out, replay=None):
                 "P1 with E as the cofactor by its heaviest literal, P2 unrelated, P3 = E, P4 unrelated; d is taken "
                 "from the measured node counts of the probe so that the store reaches T exactly / passes T at the "
                 "start of P2, P3, P4, in the middle of P2, and at the start of the probe. "
+                "READ FROM YAML, THEN CHANGED IN PLACE (8 groups quick, 90 thorough): an allocation over a 2..4 x "
+                "1..3 grid given as YAML text or tree (cells as number lists) taken through must_be_refined, refine, "
+                "initial_allocation with a netlist, griddify, uniform depth, write_yaml + read again; its history holds "
+                "the SAME cells (empty, same contents, other contents, one column less, reversed, text / tree) whose "
+                "netlist has a fixed module exactly covering one or two cells (initial_allocation tags them fixed) and "
+                "the refine / re-read loop; every fourth group is one netlist text (trunk + branch hard module, soft "
+                "modules, a fixed one) loaded and changed by create_squares / create_stogs / recenter_rectangles / "
+                "fixed flags before the probe loads the same text. The SAT operations of a history also call the public "
+                "methods of SATManager that post nothing (prioritize with negated literals, setflipped, isflipped, "
+                "newaux, printclauses, tocnf, solve, value, evalexpr, newvar with another prefix) on the variable names "
+                "the probed manager registers; a SAT probe also observes tocnf(), isflipped and, when it solves, "
+                "value() of every variable in both polarities and evalexpr. "
                 "non-trivial = non-empty history; distinct by (order-sensitive) hash")
     cases = []
     if replay and "case" in replay:
@@ -1478,6 +1683,14 @@ def run(ctx, out, replay=None):
         g = gen_related_group(ctx.rng, k)
         nrel += len(g)
         cases += g
+    # designs read from YAML and changed in place before the probe reads the same text (a generator of its own)
+    frng = random.Random(brng.randrange(1 << 30))
+    nflow = 0
+    for i in range(8 if quick else 90):
+        g = gen_flow_group(frng, "netflow" if i % 4 == 3 else "allocflow")
+        nflow += len(g)
+        cases += g
+    cases = cases[:ncorpus] + [with_sat_api(c) for c in cases[ncorpus:]]
     # JSON round trip so that replayed and generated cases have the same representation
     cases = [fr.unjson(json.loads(json.dumps(fr.tojson(c)))) for c in cases]
     _t("generation")
@@ -1516,6 +1729,7 @@ def run(ctx, out, replay=None):
         1 for (c, _), v in zip(rob, vals)
         if v is False and _CACHE[case_key(c)]["alone"]["digest"] != _CACHE[case_key(c)]["after"]["digest"])
     stats["related_pairs"] = nrel
+    stats["yaml_flow_pairs"] = nflow
     stats["bigstore_pairs"] = nbig
     thr = [(c, _CACHE.get(case_key(c), {})) for c in cases if c.get("threshold")]
     stats["threshold_pairs"] = nthr
